@@ -28,6 +28,7 @@ type renderCase struct {
 	JSONVal    json.RawMessage `json:"json_value,omitempty"`
 	XMLVal     *xmlDoc         `json:"xml_value,omitempty"`
 	Bytes      core.B          `json:"bytes,omitempty"`
+	PresetCT   bool            `json:"content_type_preset_by_earlier_handler,omitempty"`
 	Overlap    bool            `json:"overlapping_second_request,omitempty"` // a second request passes the Renderer middleware while this one holds its Render and has not rendered yet
 }
 
@@ -110,6 +111,7 @@ func genRenderCase(rng *rand.Rand) *renderCase {
 		Depth:      rng.Intn(3),
 		Where:      []string{"app", "group", "route"}[rng.Intn(3)],
 		Overlap:    rng.Intn(5) == 0,
+		PresetCT:   rng.Intn(4) == 0,
 	}
 	switch c.Kind {
 	case "json":
@@ -257,6 +259,11 @@ func judgeRender(w *core.W, c *renderCase) {
 	if c.Where == "route" {
 		hs = append(hs, rnd)
 	}
+	if c.PresetCT {
+		hs = append(hs, func(ctx flamego.Context) {
+			ctx.ResponseWriter().Header().Set("Content-Type", "text/html; charset=preset")
+		})
+	}
 	for i := 0; i < c.Depth; i++ {
 		if i%2 == 0 {
 			hs = append(hs, func(ctx flamego.Context) { ctx.Next() })
@@ -303,7 +310,7 @@ func judgeRender(w *core.W, c *renderCase) {
 		}()
 		f.ServeHTTP(spy, &http.Request{Method: "POST", URL: &url.URL{Path: target}, Header: http.Header{"X-Who": {"a"}}})
 	}()
-	o.status, o.body, o.ctype = spy.status, spy.body, spy.h.Get("Content-Type")
+	o.status, o.body, o.ctype = spy.status, spy.body, strings.Join(spy.h.Values("Content-Type"), " | ")
 	if c.Overlap && o.pan == nil {
 		w.Count("overlapping-requests")
 		if other.status != 299 || string(other.body) != "other-request" {
@@ -343,6 +350,9 @@ func judgeRender(w *core.W, c *renderCase) {
 	if c.Charset != "" {
 		w.Count("custom-charset")
 	}
+	if c.PresetCT {
+		w.Count("content-type-preset")
+	}
 	if (c.Kind == "json" && c.JSONIndent != "") || (c.Kind == "xml" && c.XMLIndent != "") {
 		w.Count("indented:" + c.Kind)
 	}
@@ -362,7 +372,7 @@ func runC17(r *core.Run) {
 		w.Begin("render", c)
 		judgeRender(w, c)
 	})
-	for _, k := range []string{"kind:json", "kind:xml", "kind:binary", "kind:text", "where:app", "where:group", "where:route", "custom-charset", "indented:json", "indented:xml", "overlapping-requests"} {
+	for _, k := range []string{"kind:json", "kind:xml", "kind:binary", "kind:text", "where:app", "where:group", "where:route", "custom-charset", "indented:json", "indented:xml", "overlapping-requests", "content-type-preset"} {
 		r.GateCounter(k, 500)
 	}
 	r.Gate("distinct_nontrivial", r.NonTrivialCount(), 5000)
